@@ -34,5 +34,17 @@ SPEC = {
     ],
 }
 MUTATIONS = """
-(filled in after the dry-runs)
+Dry-runs on a scratch copy (VERIF_REPO=/var/tmp/mC07 ./check C10 quick):
+ M1 build_env.go TargetEnvironment: `env["BUILT_BY"] = os.Getenv("USER")` -> exit 1: envReads / envKeys facts break C10_facts_ok
+    (12/13), 24 model disagreements, failing input violation-caller-env-leaks-into-action-env (`hermetic` op: two callers that
+    agree on every passed name, different action environments).
+ M2 process.go: `cmd.Env = append(os.Environ(), env...)` -> exit 1: cmdEnvAssignments fact, failing inputs
+    violation-action-sees-other-variables (`exec` op: the child's `env -0` output is not ToSlice()) and end to end
+    violation-e2e-unlisted-variable-visible (a genrule's env dump contains C10_OTHER).
+ M3 incrementality.go: drop `h.Write([]byte(os.Getenv(env)))` -> c08 facts unreadable, failing inputs
+    violation-passenv-change-not-rehashed (in-process) and violation-e2e-passenv-change-not-rebuilt (plz does not re-run the action).
+ M4 config.go Hash: skip the build-env loop -> exit 1, failing inputs violation-config-passenv-change-not-rehashed and
+    violation-e2e-config-passenv-change-not-rebuilt (all 13 theorems still check: Hash is tied by correspondence, not by a fact).
+ M5 harmless: rename env -> benv inside TargetEnvironment -> exit 0 (phase-3 log; key extraction follows BuildEnv-typed variables).
+ M6 GeneralBuildEnvironment: "LANG": os.Getenv("LANG") -> see phase-2 log.
 """
